@@ -2,21 +2,27 @@
   C09 — remove without -files never destroys user data.
 
   Over the hand-written command model (Lc/Model/Layers.lean, `removeLayer`) and the
-  file-system model (Lc/Model/Fs.lean):
+  file-system model (Lc/Model/Fs.lean), for the code after the repair "fix: remove without
+  -files deletes a layer outright only if it holds nothing beyond its own files":
 
   * `rename_preserves`, `rename_preserves_others`: what `os.Rename` of a tree does to the
     lookup function, for every tree and every pair of names (full generality, no bounds).
-  * `remove_preserves_partial`: a layer whose probed state is not "not yet populated"
-    (`S_complete`) is renamed: every entry at or below the layer directory is found with
-    the same node at the same relative path below `<dir>~removed`.  Partial: restricted to
-    `state ≠ S_complete`; the complementary region is where the property fails (below).
-  * `removed_not_overwritten`: an existing `<dir>~removed` is never touched; the command
-    fails.
-  * `pristine_deleted`: in state `S_complete` the directory is deleted outright.
-  * `remove_deletes_data_witness`: the negation of the property as stated, on a concrete
-    world: a base layer holding `build/etc/data` but not all seven FHS directories is in
-    state `S_complete`; `remove` (no `-files`) returns normally, the user file is gone and
-    no `~removed` directory exists (finding remove-deletes-unpopulated-layer-with-data).
+  * `remove_keeps_user_data_partial`: `remove` without `-files` of a layer in ANY probed
+    state, in any world: every entry at or below the layer directory is found with the same
+    node at the same relative path below `<dir>~removed` — or the directory was deleted
+    outright, and then the entry is a directory or one of the two files `add` itself creates
+    (layerconfig, the base layer's root/.bashrc).  Partial only in the side condition on the
+    two automatic export-link paths (see the theorem).
+  * `remove_renames_unless_pristine_partial`: the renaming branch in detail.
+  * `deleted_only_if_pristine`: an outright deletion happens only in the probed state
+    "not yet populated" and only when the directory held nothing else.
+  * `removed_never_overwritten`: whatever the probed state and however the command ends,
+    nothing at or below an existing `<dir>~removed` changes; `removed_not_overwritten`:
+    unless the layer is pristine the command fails and changes nothing.
+  * `remove_files_deletes`: with `-files` the directory is deleted.
+  * `fixed_witness`: the world on which the unrepaired code lost a user file (base layer
+    lacking FHS directories, probed "not yet populated", holding `build/etc/data`) now keeps
+    it below `~removed`.
 
   The automatic export links (`autoExportPaths`) are removed before the directory is
   touched; whatever lies at or below those two paths is outside the statements (explicit
@@ -77,63 +83,144 @@ example : ∃ fs', Fs.rename exTree b!"/a" b!"/b" = .ok fs' ∧
 example : Fs.get exTree (b!"/a" ++ b!"/f") = some (.file [1]) ∧
     Fs.under b!"/a" b!"/ab" = false ∧ Fs.under b!"/b" b!"/ab" = false := by decide
 
-/-! ### 2. the renaming branch of `remove` -/
+/-! ### 2. `remove` without `-files` -/
 
-/-- **remove (no -files) of a layer not in state "not yet populated" keeps every entry.**
+/-- **remove (no -files) keeps every entry the user or a build placed in the layer
+    directory — for every probed state.**
     `removeLayer cfg d name false` started in ANY world `w0` (any tree, mount table, fault
-    or crash setting) without the pretend switch, on a layer `l` with
-    `l.state ≠ S_complete`: if it returns normally, every path `p` at or below the layer
-    directory that is not at/below one of the two automatic export links has, below
-    `<layerPath>~removed` at the same relative path, exactly the lookup it had before
-    (same node: same kind, same content, same link target; absent stays absent).
+    or crash setting) without the pretend switch: if it returns normally, every path `p` at
+    or below the layer directory that is not at/below one of the two automatic export links
+    and that held `node` before
+      * holds the same `node` (same kind, content, link target) at the same relative path
+        below `<layerPath>~removed`, or
+      * was deleted outright, and then the probed state was "not yet populated" and `node`
+        is a directory or `p` is one of the layer's own files (`ownFiles`: layerconfig, the
+        base layer's `root/.bashrc`).
 
-    `_partial`: (1) `l.state ≠ S_complete` — for `S_complete` the statement is false, see
-    `remove_deletes_data_witness`; (2) the per-path hypothesis `hexp` (true for every path
-    of the layer directory whenever the export directory is not inside it); (3) the model
-    has no symlinked intermediate directories and `rename(2)` is atomic in it. -/
-theorem remove_preserves_partial (cfg : Config) (d d' : Defs) (name : Bytes) (l : Layer)
-    (w0 w' : World) (hl : findLayer d name = some l) (hst : l.state ≠ S_complete)
-    (hp : w0.pretend = false)
+    `_partial`: the per-path hypothesis `hexp` (true for every path of the layer directory
+    whenever the export directory is not inside it; inside it, the automatic link itself is
+    removed on purpose).  The model has no symlinked intermediate directories and
+    `rename(2)` is atomic in it. -/
+theorem remove_keeps_user_data_partial (cfg : Config) (d d' : Defs) (name : Bytes) (l : Layer)
+    (w0 w' : World) (hl : findLayer d name = some l) (hp : w0.pretend = false)
+    (hrun : (removeLayer cfg d name false).run.run w0 = (.ok d', w'))
+    (p : Bytes) (node : Fs.Node) (hget : Fs.get w0.fs p = some node)
+    (hu : Fs.under l.layerPath p = true)
+    (hexp : ∀ m ∈ autoExportPaths cfg l, Fs.under m.1 p = false) :
+    Fs.get w'.fs (l.layerPath ++ removedSuffix ++ p.drop l.layerPath.length) = some node ∨
+    (l.state = S_complete ∧ (node = .dir ∨ p ∈ ownFiles cfg l) ∧ Op.remove l.layerPath ∈ w'.trace) := by
+  have h := extractPost _ _ _ _ (removeLayer_outcome cfg d name l w0 hl hp) w0 (same_refl _ w0)
+  rw [hrun] at h
+  have hexp' : ∀ m ∈ exPaths cfg l, Fs.under m p = false := by
+    intro m hmem
+    obtain ⟨m', hm', e⟩ := List.mem_map.1 hmem
+    rw [← e]; exact hexp m' hm'
+  rcases h with ⟨hlp, hm, _⟩ | ⟨hdel, hst, hown⟩
+  · left
+    obtain ⟨rest, htl, hq⟩ := (under_iff l.layerPath p hlp).1 hu
+    subst hq
+    rw [List.drop_left, List.append_assoc]
+    have := hm rest htl hexp'
+    rw [List.append_assoc] at this
+    exact this.trans hget
+  · right
+    exact ⟨hst, hown p node hexp' hu hget, hdel.2⟩
+
+/-- **Unless the layer is pristine it is renamed**: if the probed state is not "not yet
+    populated", or the layer directory holds anything beyond directories and its own files,
+    a normal return means the whole tree was moved to `<layerPath>~removed` (lookup function
+    of every relative path preserved, absent stays absent) by one `rename`.
+    `_partial`: `hexp` as above. -/
+theorem remove_renames_unless_pristine_partial (cfg : Config) (d d' : Defs) (name : Bytes)
+    (l : Layer) (w0 w' : World) (hl : findLayer d name = some l)
+    (hst : l.state = S_complete → ¬ OwnOnly cfg l w0) (hp : w0.pretend = false)
     (hrun : (removeLayer cfg d name false).run.run w0 = (.ok d', w'))
     (p : Bytes) (hu : Fs.under l.layerPath p = true)
     (hexp : ∀ m ∈ autoExportPaths cfg l, Fs.under m.1 p = false) :
     Fs.get w'.fs (l.layerPath ++ removedSuffix ++ p.drop l.layerPath.length) = Fs.get w0.fs p ∧
     Op.rename l.layerPath (l.layerPath ++ removedSuffix) ∈ w'.trace := by
-  have h := extractPost _ _ _ _ (removeLayer_moved cfg d name l w0 hl hst hp) w0 (same_refl _ w0)
+  have h := extractPost _ _ _ _ (removeLayer_outcome cfg d name l w0 hl hp) w0 (same_refl _ w0)
   rw [hrun] at h
-  obtain ⟨hlp, hm, ht⟩ := h
-  refine ⟨?_, ht⟩
-  obtain ⟨rest, htl, hq⟩ := (under_iff l.layerPath p hlp).1 hu
-  subst hq
-  rw [List.drop_left, List.append_assoc]
-  have := hm rest htl (by
+  rcases h with ⟨hlp, hm, ht⟩ | ⟨_, hs, hown⟩
+  · refine ⟨?_, ht⟩
+    obtain ⟨rest, htl, hq⟩ := (under_iff l.layerPath p hlp).1 hu
+    subst hq
+    rw [List.drop_left, List.append_assoc]
+    have := hm rest htl (by
+      intro m hmem
+      obtain ⟨m', hm', e⟩ := List.mem_map.1 hmem
+      rw [← e]; exact hexp m' hm')
+    rw [List.append_assoc] at this
+    exact this
+  · exact absurd hown (hst hs)
+
+/-- **An outright deletion happens only to a pristine layer**: if a non-pretending
+    `remove` without `-files` returns normally and the layer directory is gone without a
+    rename having been issued for it, then the probed state was "not yet populated" and
+    every entry of the directory (outside the export-link paths) was a directory or one of
+    the layer's own files. -/
+theorem deleted_only_if_pristine (cfg : Config) (d d' : Defs) (name : Bytes) (l : Layer)
+    (w0 w' : World) (hl : findLayer d name = some l) (hp : w0.pretend = false)
+    (hrun : (removeLayer cfg d name false).run.run w0 = (.ok d', w'))
+    (hnr : Op.rename l.layerPath (l.layerPath ++ removedSuffix) ∉ w'.trace) :
+    l.state = S_complete ∧ OwnOnly cfg l w0 ∧
+    (∀ p, Fs.under l.layerPath p = true → Fs.get w'.fs p = none) := by
+  have h := extractPost _ _ _ _ (removeLayer_outcome cfg d name l w0 hl hp) w0 (same_refl _ w0)
+  rw [hrun] at h
+  rcases h with ⟨_, _, ht⟩ | ⟨hdel, hs, hown⟩
+  · exact absurd ht hnr
+  · exact ⟨hs, hown, hdel.1⟩
+
+/-! ### 3. an existing `<dir>~removed` -/
+
+/-- **An existing `<dir>~removed` is never overwritten** — for every probed state, every
+    setting of the pretend, fault and crash switches, and every way the command ends: if
+    `<layerPath>~removed` exists (lstat) in the initial world and is not at/below an
+    automatic export link, then every path that is neither at/below the layer directory
+    itself nor at/below an export link has the same lookup in the final world as in the
+    initial one; in particular everything at/below `<layerPath>~removed`. -/
+theorem removed_never_overwritten (cfg : Config) (d : Defs) (name : Bytes) (l : Layer) (w0 : World)
+    (hl : findLayer d name = some l)
+    (hre : Fs.lexists w0.fs (l.layerPath ++ removedSuffix) = true)
+    (hexp : ∀ m ∈ autoExportPaths cfg l, Fs.under m.1 (l.layerPath ++ removedSuffix) = false)
+    (p : Bytes) (hpl : Fs.under l.layerPath p = false)
+    (hpe : ∀ m ∈ autoExportPaths cfg l, Fs.under m.1 p = false) :
+    Fs.get ((removeLayer cfg d name false).run.run w0).2.fs p = Fs.get w0.fs p := by
+  have hexp' : ∀ m ∈ exPaths cfg l, Fs.under m (l.layerPath ++ removedSuffix) = false := by
     intro m hmem
     obtain ⟨m', hm', e⟩ := List.mem_map.1 hmem
-    rw [← e]; exact hexp m' hm')
-  rw [List.append_assoc] at this
-  exact this
+    rw [← e]; exact hexp m' hm'
+  have h := extractPost _ _ _ _ (removeLayer_rm_kept cfg d name l w0 hl hre hexp') w0
+    (same_refl _ w0)
+  have hp' : ∀ m ∈ l.layerPath :: exPaths cfg l, Fs.under m p = false := by
+    intro m hmem
+    rcases List.mem_cons.1 hmem with e | hmem
+    · rw [e]; exact hpl
+    · obtain ⟨m', hm', e⟩ := List.mem_map.1 hmem
+      rw [← e]; exact hpe m' hm'
+  generalize (removeLayer cfg d name false).run.run w0 = r at h ⊢
+  obtain ⟨a, w'⟩ := r
+  cases a with
+  | ok d' => exact h.2 p hp'
+  | error e => exact h.2 p hp'
 
-/-- the user-visible form: an entry with node `node` survives with the same node -/
-theorem remove_preserves_entry_partial (cfg : Config) (d d' : Defs) (name : Bytes) (l : Layer)
-    (w0 w' : World) (hl : findLayer d name = some l) (hst : l.state ≠ S_complete)
-    (hp : w0.pretend = false)
-    (hrun : (removeLayer cfg d name false).run.run w0 = (.ok d', w'))
-    (p : Bytes) (node : Fs.Node) (hget : Fs.get w0.fs p = some node)
-    (hu : Fs.under l.layerPath p = true)
-    (hexp : ∀ m ∈ autoExportPaths cfg l, Fs.under m.1 p = false) :
-    Fs.get w'.fs (l.layerPath ++ removedSuffix ++ p.drop l.layerPath.length) = some node := by
-  rw [(remove_preserves_partial cfg d d' name l w0 w' hl hst hp hrun p hu hexp).1]
-  exact hget
+/-- the instance the property names: every path at or below an existing `<dir>~removed`
+    keeps its lookup, whatever the probed state and however the command ends -/
+theorem removed_subtree_never_overwritten (cfg : Config) (d : Defs) (name : Bytes) (l : Layer)
+    (w0 : World) (hl : findLayer d name = some l) (hlp : l.layerPath ≠ [47])
+    (hre : Fs.lexists w0.fs (l.layerPath ++ removedSuffix) = true)
+    (hexp : ∀ m ∈ autoExportPaths cfg l, Fs.under m.1 (l.layerPath ++ removedSuffix) = false)
+    (p : Bytes) (hpr : Fs.under (l.layerPath ++ removedSuffix) p = true)
+    (hpe : ∀ m ∈ autoExportPaths cfg l, Fs.under m.1 p = false) :
+    Fs.get ((removeLayer cfg d name false).run.run w0).2.fs p = Fs.get w0.fs p :=
+  removed_never_overwritten cfg d name l w0 hl hre hexp p
+    (under_sibling_disjoint l.layerPath b!"removed" p 126 (by decide) hlp hpr) hpe
 
-/-- **An existing `<dir>~removed` is never overwritten.**  If `<layerPath>~removed` exists
-    (lstat) in the initial world and is not at/below an automatic export link, then
-    `remove` (no -files) of a layer with `state ≠ S_complete` does not return normally —
-    whatever the pretend, fault and crash switches — and every path that is not at/below one
-    of the two automatic export links has the same lookup in the final world as in the
-    initial one: in particular everything at/below the layer directory and at/below
-    `<layerPath>~removed`. -/
+/-- **Unless the layer is pristine, `remove` fails when `<dir>~removed` exists** and leaves
+    every path that is not at/below an export link as it was (the layer directory
+    included). -/
 theorem removed_not_overwritten (cfg : Config) (d : Defs) (name : Bytes) (l : Layer) (w0 : World)
-    (hl : findLayer d name = some l) (hst : l.state ≠ S_complete)
+    (hl : findLayer d name = some l) (hst : l.state = S_complete → ¬ OwnOnly cfg l w0)
     (hre : Fs.lexists w0.fs (l.layerPath ++ removedSuffix) = true)
     (hexp : ∀ m ∈ autoExportPaths cfg l, Fs.under m.1 (l.layerPath ++ removedSuffix) = false) :
     (∀ d', ((removeLayer cfg d name false).run.run w0).1 ≠ .ok d') ∧
@@ -157,25 +244,19 @@ theorem removed_not_overwritten (cfg : Config) (d : Defs) (name : Bytes) (l : La
       obtain ⟨m', hm', e⟩ := List.mem_map.1 hmem
       rw [← e]; exact hpp m' hm')
 
-/-! ### 4. the deleting branch -/
+/-! ### 4. with `-files` -/
 
-/-- **In state `S_complete` ("not yet populated") the layer directory is deleted outright**
-    (also with `-files`): after a normal return of a non-pretending run nothing is left at
-    or below the layer directory and the operation trace contains the `RemoveAll`.  No
-    hypothesis about the contents of the directory: this is why the property fails for a
-    layer in this state that does hold data. -/
-theorem pristine_deleted (cfg : Config) (d d' : Defs) (name : Bytes) (files : Bool) (l : Layer)
-    (w0 w' : World) (hl : findLayer d name = some l)
-    (hst : files = true ∨ l.state = S_complete) (hp : w0.pretend = false)
-    (hrun : (removeLayer cfg d name files).run.run w0 = (.ok d', w')) :
+/-- with `-files` a non-pretending run that returns normally has deleted the directory -/
+theorem remove_files_deletes (cfg : Config) (d d' : Defs) (name : Bytes) (l : Layer)
+    (w0 w' : World) (hl : findLayer d name = some l) (hp : w0.pretend = false)
+    (hrun : (removeLayer cfg d name true).run.run w0 = (.ok d', w')) :
     (∀ p, Fs.under l.layerPath p = true → Fs.get w'.fs p = none) ∧
     Op.remove l.layerPath ∈ w'.trace := by
-  have h := extractPost _ _ _ _ (removeLayer_deleted cfg d name files l w0 hl hst hp) w0
-    (same_refl _ w0)
+  have h := extractPost _ _ _ _ (removeLayer_deleted cfg d name l w0 hl hp) w0 (same_refl _ w0)
   rw [hrun] at h
   exact h
 
-/-! ### 3. concrete worlds: non-vacuity, and the negation of the property as stated -/
+/-! ### 5. concrete worlds: non-vacuity, and the witness of the repaired defect -/
 
 def exCfg : Config :=
   { basepath := b!"/l", layerdirs := b!"/d", buildRoot := b!"build", binPkg := b!"packages",
@@ -197,6 +278,13 @@ def exWorld : World :=
            (b!"/d/a", .dir), (b!"/d/a/layerconfig", .file []), (b!"/d/a/build", .dir),
            (b!"/d/a/build/etc", .dir), (exData, .file [1, 2, 3])] }
 
+/-- what `add a` leaves behind, plus an empty directory made later -/
+def exPristine : World :=
+  { fs := [(b!"/", .dir), (b!"/d", .dir), (b!"/e", .dir),
+           (b!"/d/a", .dir), (b!"/d/a/layerconfig", .file [1]), (b!"/d/a/build", .dir),
+           (b!"/d/a/build/root", .dir), (b!"/d/a/build/root/.bashrc", .file [2]),
+           (b!"/d/a/packages", .dir)] }
+
 /-- run `remove a` (no -files) on the example with probed state `st`; summarise the result:
     (returned normally, lookup of the user file, lookup of the moved user file,
      `~removed` exists) -/
@@ -206,10 +294,15 @@ def exRun (st : Nat) (w : World) : Bool × Option Fs.Node × Option Fs.Node × B
    Fs.get r.2.fs exData, Fs.get r.2.fs b!"/d/a~removed/build/etc/data",
    Fs.lexists r.2.fs b!"/d/a~removed")
 
-theorem exRun_complete : exRun S_complete exWorld = (true, none, none, false) := by decide
+/-- the repaired defect: probed "not yet populated" but holding a user file ⇒ renamed -/
+theorem exRun_complete : exRun S_complete exWorld = (true, none, some (.file [1, 2, 3]), true) := by
+  decide
 
 theorem exRun_incomplete :
     exRun S_incomplete exWorld = (true, none, some (.file [1, 2, 3]), true) := by decide
+
+/-- a pristine layer in state "not yet populated" is deleted outright -/
+theorem exRun_pristine : exRun S_complete exPristine = (true, none, none, false) := by decide
 
 /-- from the summary back to the run: it returned normally in a world with the summarised
     lookups -/
@@ -227,28 +320,23 @@ theorem exRun_ok (st : Nat) (w : World) (a b : Option Fs.Node) (c : Bool)
     simp only [Prod.mk.injEq, true_and] at h
     exact ⟨d', w', rfl, h.1, h.2.1, h.2.2⟩
 
-/-- **The property as stated is violated** (finding
-    remove-deletes-unpopulated-layer-with-data): there are a configuration, a forest with
-    one base layer "a" in state `S_complete`, and a world whose layer directory holds the
-    user file `/d/a/build/etc/data`, such that `remove a` without `-files` returns normally,
-    the file is gone and no `~removed` directory exists. -/
-theorem remove_deletes_data_witness :
-    ∃ (cfg : Config) (d d' : Defs) (l : Layer) (w w' : World),
-      findLayer d b!"a" = some l ∧ l.state = S_complete ∧ w.pretend = false ∧
-      Fs.get w.fs exData = some (.file [1, 2, 3]) ∧ Fs.under l.layerPath exData = true ∧
-      (removeLayer cfg d b!"a" false).run.run w = (.ok d', w') ∧
-      Fs.get w'.fs exData = none ∧
-      Fs.get w'.fs (l.layerPath ++ removedSuffix ++ exData.drop l.layerPath.length) = none ∧
-      Fs.lexists w'.fs (l.layerPath ++ removedSuffix) = false := by
-  obtain ⟨d', w', hr, h1, h2, h3⟩ := exRun_ok _ _ _ _ _ exRun_complete
-  exact ⟨exCfg, exDefs S_complete, d', exLayer S_complete, exWorld, w', by decide, rfl, rfl,
-    by decide, by decide, hr, h1, h2, h3⟩
+/-- **The world on which the unrepaired code destroyed user data now keeps it**: one base
+    layer "a" probed "not yet populated" (`S_complete`) whose directory holds the user file
+    `/d/a/build/etc/data`; `remove a` without `-files` returns normally and the file is
+    found with its content below `/d/a~removed`. -/
+theorem fixed_witness :
+    ∃ (d' : Defs) (w' : World),
+      (removeLayer exCfg (exDefs S_complete) b!"a" false).run.run exWorld = (.ok d', w') ∧
+      Fs.get exWorld.fs exData = some (.file [1, 2, 3]) ∧
+      Fs.get w'.fs ((exLayer S_complete).layerPath ++ removedSuffix ++
+        exData.drop (exLayer S_complete).layerPath.length) = some (.file [1, 2, 3]) := by
+  obtain ⟨d', w', hr, _, h2, _⟩ := exRun_ok _ _ _ _ _ exRun_complete
+  exact ⟨d', w', hr, by decide, h2⟩
 
 /-! The same through the whole command pipeline of the model (`run` = `getLayers` (the
     probe) followed by the command), so that the state `S_complete` is not chosen by hand:
     with an empty mount table and no processes the model's probe classifies layer "a" of
-    `exWorld` as "not yet populated" (the state under which `remove a` deletes the user file,
-    `remove_deletes_data_witness`). -/
+    `exWorld` as "not yet populated". -/
 
 def exProbedState : Option Nat :=
   match ((getLayers exCfg []).run.run exWorld).1 with
@@ -258,40 +346,37 @@ def exProbedState : Option Nat :=
 set_option maxRecDepth 4000 in
 theorem exWorld_probed_complete : exProbedState = some S_complete := by decide
 
-/-- non-vacuity of `pristine_deleted`: its hypotheses hold on the witness world (the run
-    does return normally), and its conclusion is about an existing file -/
+/-- non-vacuity of `remove_keeps_user_data_partial`, first alternative: hypotheses hold on
+    the witness world for the user file (state "not yet populated"!), the run returns
+    normally and the file is below `~removed` -/
 example : ∃ d' w', (removeLayer exCfg (exDefs S_complete) b!"a" false).run.run exWorld = (.ok d', w')
-    ∧ findLayer (exDefs S_complete) b!"a" = some (exLayer S_complete)
-    ∧ (false = true ∨ (exLayer S_complete).state = S_complete) ∧ exWorld.pretend = false
+    ∧ findLayer (exDefs S_complete) b!"a" = some (exLayer S_complete) ∧ exWorld.pretend = false
     ∧ Fs.under (exLayer S_complete).layerPath exData = true
-    ∧ Fs.get exWorld.fs exData = some (.file [1, 2, 3]) := by
-  obtain ⟨d', w', hr, _⟩ := exRun_ok _ _ _ _ _ exRun_complete
-  exact ⟨d', w', hr, by decide, Or.inr rfl, rfl, by decide, by decide⟩
-
-/-- non-vacuity of `remove_preserves_partial`: same tree, probed state `S_incomplete`: the
-    run returns normally, all hypotheses hold for the user file, and the file is indeed
-    below `~removed` afterwards (and the stale export link did get removed first) -/
-example : ∃ d' w', (removeLayer exCfg (exDefs S_incomplete) b!"a" false).run.run exWorld = (.ok d', w')
-    ∧ findLayer (exDefs S_incomplete) b!"a" = some (exLayer S_incomplete)
-    ∧ (exLayer S_incomplete).state ≠ S_complete ∧ exWorld.pretend = false
-    ∧ Fs.under (exLayer S_incomplete).layerPath exData = true
-    ∧ (∀ m ∈ autoExportPaths exCfg (exLayer S_incomplete), Fs.under m.1 exData = false)
+    ∧ (∀ m ∈ autoExportPaths exCfg (exLayer S_complete), Fs.under m.1 exData = false)
+    ∧ Fs.get exWorld.fs exData = some (.file [1, 2, 3])
     ∧ Fs.get w'.fs b!"/d/a~removed/build/etc/data" = some (.file [1, 2, 3]) := by
-  obtain ⟨d', w', hr, _, h2, _⟩ := exRun_ok _ _ _ _ _ exRun_incomplete
-  exact ⟨d', w', hr, by decide, by decide, rfl, by decide, by decide, h2⟩
+  obtain ⟨d', w', hr, _, h2, _⟩ := exRun_ok _ _ _ _ _ exRun_complete
+  exact ⟨d', w', hr, by decide, rfl, by decide, by decide, by decide, h2⟩
+
+/-- non-vacuity, second alternative (and of `deleted_only_if_pristine`): the pristine world
+    is deleted outright; its entries are directories or own files -/
+example : exRun S_complete exPristine = (true, none, none, false)
+    ∧ onlyOwnFiles exCfg (exLayer S_complete) exPristine.fs = true
+    ∧ b!"/d/a/build/root/.bashrc" ∈ ownFiles exCfg (exLayer S_complete) := by decide
 
 /-- a world in which `/d/a~removed` (with an older user file) already exists -/
 def exWorld2 : World :=
   { exWorld with fs := exWorld.fs ++ [(b!"/d/a~removed", .dir), (b!"/d/a~removed/old", .file [9])] }
 
-/-- non-vacuity of `removed_not_overwritten`: hypotheses hold on `exWorld2`; the run fails
-    and both user files are where they were -/
+/-- non-vacuity of `removed_not_overwritten` / `removed_never_overwritten`: hypotheses hold
+    on `exWorld2`; the run fails and both user files are where they were -/
 example : findLayer (exDefs S_incomplete) b!"a" = some (exLayer S_incomplete)
-    ∧ (exLayer S_incomplete).state ≠ S_complete
     ∧ Fs.lexists exWorld2.fs ((exLayer S_incomplete).layerPath ++ removedSuffix) = true
     ∧ (∀ m ∈ autoExportPaths exCfg (exLayer S_incomplete),
         Fs.under m.1 ((exLayer S_incomplete).layerPath ++ removedSuffix) = false)
-    ∧ exRun S_incomplete exWorld2 = (false, some (.file [1, 2, 3]), none, true) := by
+    ∧ Fs.under (exLayer S_incomplete).layerPath b!"/d/a~removed/old" = false
+    ∧ exRun S_incomplete exWorld2 = (false, some (.file [1, 2, 3]), none, true)
+    ∧ exRun S_complete exWorld2 = (false, some (.file [1, 2, 3]), none, true) := by
   decide
 
 end Lc.Props.C09
